@@ -298,6 +298,9 @@ func (f File) Generate(inputWriter io.Writer, settings GenerateSettings) error {
 		type bebopImport struct {
 			from string
 			to   string
+			// dir is the directory of the file containing the import statement;
+			// import paths are relative to the importing file.
+			dir string
 		}
 		imports := make([]bebopImport, len(f.Imports))
 		importGraph := importgraph.NewDgraph()
@@ -305,13 +308,14 @@ func (f File) Generate(inputWriter io.Writer, settings GenerateSettings) error {
 			imports[i] = bebopImport{
 				from: f.GoPackage,
 				to:   imp,
+				dir:  thisDir,
 			}
 		}
 		// TODO: why are imports not scoped to a namespace?
 		imported := map[string]struct{}{}
 		for i := 0; i < len(imports); i++ {
 			imp := imports[i]
-			impPath := filepath.Join(thisDir, imp.to)
+			impPath := filepath.Join(imp.dir, imp.to)
 
 			impF, err := os.Open(impPath)
 			if err != nil {
@@ -332,6 +336,7 @@ func (f File) Generate(inputWriter io.Writer, settings GenerateSettings) error {
 				imports = append(imports, bebopImport{
 					from: impFile.GoPackage,
 					to:   subImp,
+					dir:  filepath.Dir(impPath),
 				})
 			}
 			imported[impPath] = struct{}{}
